@@ -308,37 +308,63 @@ func runPKCols(c *Ctx) {
 	if fn == nil {
 		return
 	}
+	// the loop over the primary-key columns: the outermost loop
+	var h *ssa.BasicBlock
+	hs := loopHeaders(fn)
+	for _, cand := range hs {
+		inside := false
+		for _, h2 := range hs {
+			if h2 != cand && loopBody(h2)[cand] {
+				inside = true
+			}
+		}
+		if !inside {
+			if h != nil {
+				c.Undecided("pkColumns loop", fn.Pos(), "more than one outer loop")
+				return
+			}
+			h = cand
+		}
+	}
+	if h == nil {
+		c.Undecided("pkColumns loop", fn.Pos(), "pkColumns has no loop over the primary key")
+		return
+	}
 	t := &Termer{P: p}
-	_, paths, ok := bodyPaths(p, fn, t)
+	paths, ok := EnumLits(h, 0, TabOpts{Termer: t, EventOf: callEvents(p), Limit: 100000,
+		Stop: func(in ssa.Instruction, ps *pathState) bool { return in == h.Instrs[0] && len(ps.Path) > 1 }})
 	if !ok {
-		c.Undecided("pkColumns loop", fn.Pos(), "pkColumns is not a single loop over the primary key")
+		c.Undecided("pkColumns loop", fn.Pos(), "too many paths")
 		return
 	}
 	schema, ind := "p:"+fn.Params[0].Name(), "p:"+fn.Params[1].Name()
-	el := schema + ".PK[i]"
-	n := 0
+	mentions := func(lp *LPath, what string) bool {
+		for _, l := range lp.Lits {
+			if strings.Contains(gen(l.Subject), what) {
+				return true
+			}
+		}
+		for _, e := range lp.Events {
+			for _, a := range e.Args {
+				if strings.Contains(gen(a), what) {
+					return true
+				}
+			}
+		}
+		return false
+	}
+	nAppend, nReuse := 0, 0
 	for _, lp := range paths {
 		if lp.Stop == nil {
 			continue
 		}
-		n++
-		key := "pkColumns:" + pathSig(lp, 99)
-		look := eventsOf(lp, "call", "(*db.SchemaIndex).Column")
-		if len(look) != 1 || look[0].Args[0] != ind || gen(look[0].Args[1]) != el+".Column" {
-			c.Fail(key, fn.Pos(), "primary-key column i is not looked up in the index by its own name")
-			continue
-		}
-		res := "call:(*db.SchemaIndex).Column"
-		missing := lp.Holds(res, token.LSS, "0")
-		present := lp.Holds(res, token.GEQ, "0")
-		// the position recorded: the last element store into a one-element int array (variadic append onto the result)
 		var pos string
-		var colsAppend bool
+		colsAppend := false
 		for _, e := range lp.Events {
 			if e.Kind != "store" {
 				continue
 			}
-			if e.Name == "Columns" && e.Base == ind && strings.HasPrefix(e.Val, "append("+ind+".Columns,") {
+			if e.Name == "Columns" && e.Base == ind && strings.HasPrefix(gen(e.Val), "append("+ind+".Columns,") {
 				colsAppend = true
 			}
 			if e.Name == "[]" {
@@ -347,23 +373,78 @@ func runPKCols(c *Ctx) {
 				}
 			}
 		}
-		switch {
-		case present:
-			c.Check(pos == res && !colsAppend, key, fn.Pos(), "a primary-key column the index already has is read at its own position in the entry (records %s)", pos)
-		case missing:
-			c.Check(colsAppend && pos == "(len("+ind+".Columns)-const:1)", key, fn.Pos(), "a primary-key column the index lacks is appended to the index definition (SQLite appends it to every entry) and read at that new last position (records %s, appended: %v)", pos, colsAppend)
-		default:
-			c.Fail(key, fn.Pos(), "a position is recorded without checking whether the index already has the column; path [%s]", pathDesc(lp))
+		if pos == "" {
+			c.Fail("pkColumns:"+pathSig(lp, 99), fn.Pos(), "a primary-key column is passed over without recording a position; path [%s]", pathDesc(lp))
+			continue
 		}
+		if colsAppend {
+			nAppend++
+			isPK := false
+			for _, e := range lp.Events {
+				if e.Kind == "store" && e.Name == "[]" && strings.Contains(gen(e.Val), schema+".PK[i]") {
+					isPK = true // the appended element is the key column itself
+				}
+			}
+			good := strings.HasPrefix(pos, "(len(") && strings.HasSuffix(pos, "-const:1)") && isPK
+			c.Check(good, "pkColumns appended", fn.Pos(), "a key column that is not in the index yet is appended to the index definition and found at the new last position (position %s)", pos)
+			continue
+		}
+		// reuse of an index column: it must be the same column under the same collation — SQLite stores the key column
+		// again when the index has it under another collation
+		nReuse++
+		name := mentions(lp, schema+".PK[i].Column") || mentions(lp, ".Column")
+		// the collations are compared by sameCollation (whose table — no name means BINARY, names compare without
+		// case — is decided below), with this index column's and this key column's collation
+		coll := false
+		for _, e := range lp.Events {
+			if e.Kind == "call" && e.Name == "sqlittle.sameCollation" && len(e.Args) == 2 {
+				a0, a1 := gen(e.Args[0]), gen(e.Args[1])
+				if (strings.HasSuffix(a0, ".Collate") && a1 == schema+".PK[i].Collate") || (strings.HasSuffix(a1, ".Collate") && a0 == schema+".PK[i].Collate") {
+					coll = true
+				}
+			}
+		}
+		c.Check(name && coll, "pkColumns reuse", fn.Pos(), "%s", map[bool]string{true: "an index column stands in for a key column only after its name and its collation were compared with the key column's", false: "an index column is taken for a key column by name alone: when the index has that column under another collation SQLite stores the key column a second time, and every position after it is off by one"}[name && coll])
 	}
-	if n == 0 {
-		c.Fail("pkColumns", fn.Pos(), "no position is recorded per primary-key column")
+	if nAppend == 0 || nReuse == 0 {
+		c.Fail("pkColumns", fn.Pos(), "expected a path that reuses an index column and one that appends the key column (found %d, %d)", nReuse, nAppend)
 	}
 	// the result is the list built in the loop
 	for _, r := range returnsOf(fn) {
 		if _, isPhi := r.Results[0].(*ssa.Phi); !isPhi {
 			c.Fail("pkColumns result", r.Pos(), "the result is not the list of positions collected per primary-key column")
 		}
+	}
+	// sameCollation: "" stands for BINARY on either side; names are compared without regard to case
+	sc := findFn(p, "sqlittle.sameCollation")
+	if sc == nil {
+		c.Undecided("anchor sameCollation", token.NoPos, "sqlittle.sameCollation not found")
+		return
+	}
+	spaths, _ := EnumLits(sc.Blocks[0], 0, TabOpts{Termer: t, EventOf: callEvents(p)})
+	a, b := "p:"+sc.Params[0].Name(), "p:"+sc.Params[1].Name()
+	n := 0
+	for _, lp := range spaths {
+		if lp.Exit == nil {
+			continue
+		}
+		n++
+		want := func(prm string) string {
+			if lp.Holds(prm, token.EQL, `""`) {
+				return `const:"binary"`
+			}
+			if lp.Holds(prm, token.NEQ, `""`) {
+				return prm
+			}
+			return "?"
+		}
+		ef := eventsOf(lp, "call", "strings.EqualFold")
+		good := len(ef) == 1 && len(ef[0].Args) == 2 && ((ef[0].Args[0] == want(a) && ef[0].Args[1] == want(b)) || (ef[0].Args[0] == want(b) && ef[0].Args[1] == want(a))) &&
+			strings.HasPrefix(t.Term(lp.Exit.Results[0], lp.PS), "call:strings.EqualFold")
+		c.Check(good, "sameCollation:"+pathSig(lp, 99), lp.Exit.Pos(), "on path [%s]: an empty name counts as BINARY, and the two names are compared without regard to case", pathDesc(lp))
+	}
+	if n < 4 {
+		c.Fail("sameCollation", sc.Pos(), "expected the four combinations of named/unnamed collations (found %d paths)", n)
 	}
 }
 
